@@ -24,7 +24,7 @@ from ser import Ser, Unsupported
 from props import c03 as J
 
 LEAN_MODULE = "Optyx.Props.C17"
-EXTRA_MODULES = ["Optyx.Props.PinsC17", "Optyx.Props.BuildTie", "Optyx.Props.ClosurePathTie", "Optyx.Props.SymbolicJacTie"]   # transcription anchors (harness/source_pins.py)
+EXTRA_MODULES = ["Optyx.Props.PinsC17", "Optyx.Props.BuildTie", "Optyx.Props.ClosurePathTie", "Optyx.Props.SymbolicJacTie", "Optyx.Props.CompileEntryTie"]   # transcription anchors (harness/source_pins.py)
 THEOREMS = [
     "Optyx.Props.Closures.closureTables_agree",
     "Optyx.Props.Closures.sanitizeShape_agrees",
@@ -45,6 +45,10 @@ THEOREMS = [
     "Optyx.Props.ClosurePathTie.compileHessian_path",
     "Optyx.Props.SymbolicJacTie.computeJacobian_eq",
     "Optyx.Props.SymbolicJacTie.computeHessian_eq",
+    "Optyx.Props.CompileEntryTie.compileExpression_eq",
+    "Optyx.Props.CompileEntryTie.dictFn_eq",
+    "Optyx.Props.CompileEntryTie.param_run",
+    "Optyx.Props.CompileEntryTie.compiledExpression_value",
     "Optyx.Props.PinsC17.anchors",
 ]
 ASSUMPTIONS = [
